@@ -8,6 +8,7 @@
 -/
 import PyTough.Proofs.ThermoIapws
 import PyTough.Proofs.ThermoSat
+import PyTough.Proofs.ThermoSatExamples
 import PyTough.Proofs.ThermoVisc
 
 namespace Props.C14
@@ -52,6 +53,10 @@ theorem single_potential_r1 (t p : ℝ) (ht0 : 0 ≤ t) (ht : t ≤ 350) (hp : p
   Proofs.Iapws.single_potential_r1 t p ht0 ht hp
 
 example : (0 : ℝ) ≤ 300 ∧ (300 : ℝ) ≤ 350 ∧ (3000000 : ℝ) ≤ 100000000 := by norm_num
+example : ∃ gπ gτ : ℝ, cowat (300 : ℝ) 3000000 = Ret.pair (pstar1 / (rconst * (300 + tc_k) * gπ))
+    (rconst * (300 + tc_k) * (tau1 300 * gτ - pi1 3000000 * gπ)) := by
+  obtain ⟨a, b, _, _, h⟩ := single_potential_r1 300 3000000 (by norm_num) (by norm_num) (by norm_num)
+  exact ⟨a, b, h⟩
 
 /-- **Region 2 (steam, `supst`).**  `γ₂(π, τ) = ln π + Σ n⁰ᵢ τ^J⁰ᵢ + Σ nᵢ π^Iᵢ (τ − 0.5)^Jᵢ`
     (`gamma2`); every state `0 ≤ t ≤ 800`, `0 < p ≤ 100 MPa`. -/
@@ -63,6 +68,8 @@ theorem single_potential_r2 (t p : ℝ) (ht0 : 0 ≤ t) (ht : t ≤ 800) (hp0 : 
         (rconst * (t + tc_k) * (tau2 t * gτ - pi2 p * gπ)) :=
   Proofs.Iapws.single_potential_r2 t p ht0 ht hp0 hp
 
+example : (0 : ℝ) ≤ 450 ∧ (450 : ℝ) ≤ 800 ∧ (0 : ℝ) < 30000000 ∧ (30000000 : ℝ) ≤ 100000000 := by norm_num
+
 /-- **Region 3 (supercritical, `super`).**  `φ(δ, τ) = n₁ ln δ + Σ nᵢ δ^Iᵢ τ^Jᵢ` (`phi3`, Helmholtz);
     the routine returns `(ρ R T δ φ_δ, R T τ φ_τ)` at every density `d ≠ 0` and `t ≥ 0`. -/
 theorem single_potential_r3 (d t : ℝ) (hd : d ≠ 0) (ht0 : 0 ≤ t) :
@@ -71,6 +78,8 @@ theorem single_potential_r3 (d t : ℝ) (hd : d ≠ 0) (ht0 : 0 ≤ t) :
       HasDerivAt (fun τ' => phi3 (delta3 d) τ') φτ (tau3 t) ∧
       super_ d t = Ret.pair (d * (rconst * (t + tc_k)) * delta3 d * φδ) (rconst * (t + tc_k) * tau3 t * φτ) :=
   Proofs.Iapws.single_potential_r3 d t hd ht0
+
+example : (500 : ℝ) ≠ 0 ∧ (0 : ℝ) ≤ 400 := by norm_num
 
 /-! ### the region classifier names the region whose equation is valid -/
 
@@ -133,7 +142,7 @@ theorem sat_root (t : ℝ) (h0 : 0 ≤ t) (h1 : t ≤ tcritical)
 theorem tsat_root (p : ℝ) (h0 : pmin ≤ p) (h1 : p ≤ pcritical)
     (hΔ : 0 ≤ tsDisc (Real.sqrt (Real.sqrt (p / pstar4)) * Real.sqrt (Real.sqrt (p / pstar4))) (Real.sqrt (Real.sqrt (p / pstar4))))
     (hD : tsDen (Real.sqrt (Real.sqrt (p / pstar4)) * Real.sqrt (Real.sqrt (p / pstar4))) (Real.sqrt (Real.sqrt (p / pstar4))) ≠ 0)
-    (h2 : 0 ≤ tsDisc2 (tsTheta (Real.sqrt (Real.sqrt (p / pstar4)) * Real.sqrt (Real.sqrt (p / pstar4))) (Real.sqrt (Real.sqrt (p / pstar4))))) :
+    :
     let β := Real.sqrt (Real.sqrt (p / pstar4))
     let ϑ := tsTheta (β * β) β
     tsat p = Ret.num (tsT ϑ - tc_k) ∧ β * β * (β * β) = p / pstar4 ∧ satPoly β ϑ = 0 ∧
@@ -144,7 +153,7 @@ theorem tsat_root (p : ℝ) (h0 : pmin ≤ p) (h1 : p ≤ pcritical)
     have : (0 : ℝ) ≤ pmin := by unfold pmin; norm_num
     exact div_nonneg (by linarith) (le_of_lt pstar4_pos)
   have hb2 : β * β = Real.sqrt (p / pstar4) := Real.mul_self_sqrt (Real.sqrt_nonneg _)
-  refine ⟨?_, ?_, satPoly_tsTheta β hΔ hD, tsT_root ϑ h2, fun h => thetaOf_of_root _ _ h (tsT_root ϑ h2)⟩
+  refine ⟨?_, ?_, satPoly_tsTheta β hΔ hD, tsT_root ϑ (tsDisc2_nonneg ϑ), fun h => thetaOf_of_root _ _ h (tsT_root ϑ (tsDisc2_nonneg ϑ))⟩
   · have := tsat_eq p h0 h1
     rw [this]; show Ret.num (tsT (tsTheta (Real.sqrt (p / pstar4)) β) - tc_k) = Ret.num (tsT (tsTheta (β * β) β) - tc_k)
     rw [hb2]
@@ -170,12 +179,11 @@ theorem sat_tsat_inverse_partial (t : ℝ) (h0 : 0 ≤ t) (h1 : t ≤ tcritical)
 
 /-- **`sat (tsat p) = p` exactly (over the reals)** for every `p` of `tsat`'s range
     `611.213 ≤ p ≤ pcritical` whose saturation temperature `sat`'s range test accepts (`hg`), on the
-    branches the routines take (`tsat`: `hΔ hD h2`; `sat`: `2Aβ + B ≤ 0`, `Aβ + B ≠ 0`).  `_partial` for
+    branches the routines take (`tsat`: `hΔ hD`; `sat`: `2Aβ + B ≤ 0`, `Aβ + B ≠ 0`).  `_partial` for
     the same reason as above. -/
 theorem tsat_sat_inverse_partial (p : ℝ) (h0 : pmin ≤ p) (h1 : p ≤ pcritical)
     (hΔ : 0 ≤ tsDisc (Real.sqrt (Real.sqrt (p / pstar4)) * Real.sqrt (Real.sqrt (p / pstar4))) (Real.sqrt (Real.sqrt (p / pstar4))))
     (hD : tsDen (Real.sqrt (Real.sqrt (p / pstar4)) * Real.sqrt (Real.sqrt (p / pstar4))) (Real.sqrt (Real.sqrt (p / pstar4))) ≠ 0)
-    (h2 : 0 ≤ tsDisc2 (tsTheta (Real.sqrt (Real.sqrt (p / pstar4)) * Real.sqrt (Real.sqrt (p / pstar4))) (Real.sqrt (Real.sqrt (p / pstar4)))))
     (hbr : 2 * satA (tsTheta (Real.sqrt (Real.sqrt (p / pstar4)) * Real.sqrt (Real.sqrt (p / pstar4))) (Real.sqrt (Real.sqrt (p / pstar4))))
         * Real.sqrt (Real.sqrt (p / pstar4))
       + satB (tsTheta (Real.sqrt (Real.sqrt (p / pstar4)) * Real.sqrt (Real.sqrt (p / pstar4))) (Real.sqrt (Real.sqrt (p / pstar4)))) ≤ 0)
@@ -184,12 +192,32 @@ theorem tsat_sat_inverse_partial (p : ℝ) (h0 : pmin ≤ p) (h1 : p ≤ pcritic
       + satB (tsTheta (Real.sqrt (Real.sqrt (p / pstar4)) * Real.sqrt (Real.sqrt (p / pstar4))) (Real.sqrt (Real.sqrt (p / pstar4)))) ≠ 0)
     (hg : 0 ≤ (tsat p).toK ∧ (tsat p).toK ≤ tcritical) :
     sat (tsat p).toK = Ret.num p :=
-  tsat_sat_inverse p h0 h1 hΔ hD h2 hbr hne hg
+  tsat_sat_inverse p h0 h1 hΔ hD hbr hne hg
 
 /-- outside `[611.213 Pa, pcritical]` `tsat` returns `None` — so the inverse fails wherever `sat t`
     leaves that interval (which it does at the critical end: `sat(373.946) = 22064000.00032 > pcritical`,
     exhibited bit for bit by the driver corpus, facet `critical_end_witness`) -/
 theorem tsat_outside_range (p : ℝ) (h : ¬(pmin ≤ p ∧ p ≤ pcritical)) : tsat p = Ret.none := tsat_none p h
+
+/-- non-vacuity: at `T = 500 K` and at `p = 1 MPa` all hypotheses of the four theorems above hold
+    together (`exT_all`, `exP_all`: the square roots are enclosed between rationals), so they yield -/
+example : tsat (sat ((500 : ℝ) - tc_k)).toK = Ret.num (500 - tc_k) := by
+  obtain ⟨h0, h1, hΔ, hD, hβ, hbr, hne, hg1, hg2⟩ := exT_all
+  exact sat_tsat_inverse_partial _ h0 h1 hΔ hD hβ hbr hne ⟨hg1, hg2⟩
+
+example : sat (tsat (pstar4 : ℝ)).toK = Ret.num pstar4 := by
+  obtain ⟨h0, h1, hΔ, hD, hbr, hne, hg1, hg2⟩ := exP_all
+  exact tsat_sat_inverse_partial _ h0 h1 hΔ hD hbr hne ⟨hg1, hg2⟩
+
+example : satPoly (satBeta (thetaOf ((500 : ℝ) - tc_k + tc_k))) (thetaOf ((500 : ℝ) - tc_k + tc_k)) = 0 := by
+  obtain ⟨h0, h1, hΔ, hD, _⟩ := exT_all
+  exact (sat_root _ h0 h1 hΔ hD).2
+
+example : satPoly (Real.sqrt (Real.sqrt ((pstar4 : ℝ) / pstar4)))
+    (tsTheta (Real.sqrt (Real.sqrt ((pstar4 : ℝ) / pstar4)) * Real.sqrt (Real.sqrt ((pstar4 : ℝ) / pstar4)))
+      (Real.sqrt (Real.sqrt ((pstar4 : ℝ) / pstar4)))) = 0 := by
+  obtain ⟨h0, h1, hΔ, hD, _⟩ := exP_all
+  exact (tsat_root _ h0 h1 hΔ hD).2.2.1
 
 /-- **The negative result at the critical end** (the known finding `sat-tsat-inverse:critical-end`),
     proved in exact real arithmetic on the code's own constants, not just observed in doubles:
